@@ -8,7 +8,7 @@ use proc_macro2::TokenStream;
 use proc_macro_error::emit_error;
 use quote::quote;
 use syn::spanned::Spanned;
-use syn::{GenericParam, ItemImpl, Type};
+use syn::{GenericParam, Ident, ItemImpl, Type};
 
 /// Representation of single struct message
 pub struct StructMessage<'a> {
@@ -109,6 +109,13 @@ impl<'a> StructMessage<'a> {
             .msg_type()
             .emit_ctx_type(&custom.query_or_default());
         let fields_names: Vec<_> = variant.fields().iter().map(MsgField::name).collect();
+        // Fields are bound under neutral names, like in the enum messages dispatch, so that a
+        // message parameter called `contract` or `ctx` does not shadow the `dispatch` arguments.
+        let fields_bindings: Vec<_> = fields_names
+            .iter()
+            .zip(1..)
+            .map(|(name, num)| Ident::new(&format!("field{}", num), name.span()))
+            .collect();
         let parameters = variant.fields().iter().map(MsgField::emit_method_field);
         let fields = variant.fields().iter().map(MsgField::emit_pub);
 
@@ -131,8 +138,8 @@ impl<'a> StructMessage<'a> {
 
                 pub fn dispatch #bracketed_unused_generics (self, contract: &#contract_type, ctx: #ctx_type) -> #ret_type #full_where
                 {
-                    let Self { #(#fields_names,)* } = self;
-                    contract.#function_name(Into::into(ctx), #(#fields_names,)*).map_err(Into::into)
+                    let Self { #(#fields_names: #fields_bindings,)* } = self;
+                    contract.#function_name(Into::into(ctx), #(#fields_bindings,)*).map_err(Into::into)
                 }
             }
         }
